@@ -51,7 +51,7 @@ def _install_stub_aggregator(uod_def):
 def _method_for(kind, line, second=None):
     body = ["Mark: pre", line]
     offending = [1]
-    if kind == "cond":
+    if kind == "cond" or (kind == "junk" and line.strip().startswith(("Watch", "Alarm", "Macro", "Block"))):
         body.append("    Mark: body")
     if second is not None:
         offending.append(len(body))
@@ -182,4 +182,6 @@ def _site(kind, parts, second):
         return f"command-{n if name == 'defined' else name}"
     if second is not None:
         return "two-lines"
+    if kind == "junk":
+        return "junk-" + (re.sub(r"[^A-Za-z0-9:>#().-]+", "_", parts.get("text", "")) or "blank")
     return one(kind, parts)
